@@ -4,6 +4,7 @@ retrieval is backed by its own item.
 -/
 import FsVerif.Proofs.PosExtra
 import FsVerif.Proofs.BufExtra
+import FsVerif.Proofs.Fleet
 namespace FsVerif.Props.C02
 open FsVerif PosStore
 
@@ -71,5 +72,22 @@ theorem buf_get_honoured {s : BufStore} (h : BufStore.ReachD s) {t : Tok} (ht : 
   unfold BufStore.step
   obtain ⟨e, h1, _, h3⟩ := BufStore.get_accept hi.toPre ⟨t, ht, rfl, rfl⟩
   exact ⟨e, h1, h3⟩
+
+/-! ### FleetStore: the same laws for the store inside a Fleet edge, at every reachable state (kernel events included) -/
+
+theorem fleet_conservation {s : FleetStore} (h : FleetStore.ReachD s) :
+    (s.b.gotLog ++ (s.b.transit ++ s.b.ready).map (·.item)).Perm s.b.putLog :=
+  (FleetStore.reachD_kt h).core.cons
+
+/-- items on the vehicle, under way and delivered are pairwise different objects -/
+theorem fleet_entries_distinct {s : FleetStore} (h : FleetStore.ReachD s) :
+    ((s.b.transit ++ s.b.ready).map (·.item.id)).Nodup :=
+  (FleetStore.reachD_kt h).core.dist
+
+/-- every granted retrieval owns its own delivered item -/
+theorem fleet_binding {s : FleetStore} (h : FleetStore.ReachD s) :
+    s.b.resEv.Perm s.b.getRes ∧ s.b.resItems.length = s.b.getRes.length ∧ (∀ e ∈ s.b.resItems, e ∈ s.b.ready) := by
+  have hi := (FleetStore.reachD_kt h).core
+  exact ⟨hi.bindEv, by have := hi.bindLen; have := hi.bindEv.length_eq; omega, BufStore.resItems_sub hi.toPre⟩
 
 end FsVerif.Props.C02
